@@ -1,7 +1,239 @@
+/-
+  Model driver for C09 (journalled StateDB). One case line = one history:
+    input  : `h <action> <action> ...`          (actions as produced by go/harness/cmd/c09)
+    go out : one observation per action, space separated
+  The driver replays the actions on `Aqv.Model.State` and prints the same observations. Roots are compared as classes:
+  the Go side numbers distinct root hashes by first appearance, the model numbers distinct trie contents (restricted to
+  the tracked accounts/slots) by first appearance — equal strings mean "equal content ⇔ equal root" on the whole history.
+  When the outputs differ the Go output is judged against the property on its own (revert restores the recorded view,
+  roots are a function of the reported content, reopen/copy read back) to tell spec-reject from spec-ok.
+-/
 import Aqv.Base.Proto
-open Aqv Aqv.Proto
+import Aqv.Model.State
+open Aqv Aqv.Proto Aqv.State
 
-/-- stub driver for C09 (answers every case line with "bad-op"); replaced when the property is built. -/
-def handle (l : String) : String := let _ := l; "bad-op\tagree"
+def tracked : List Nat := [1, 2, 3, 4, 5]
+def slots : List Nat := [0, 1, 2]
+def hkeys : List Nat := [0, 1, 2]
+
+def joinWith (sep : String) (xs : List String) : String := sep.intercalate xs
+
+def showAcctView (a : Nat) (s : SDB) : String :=
+  match look s a with
+  | none => toString a ++ ":-"
+  | some o =>
+    toString a ++ ":" ++ toString o.nonce ++ "," ++ toString o.balance ++ "," ++ hexOrDash o.code ++ "," ++
+      (if o.suicided then "S" else "s") ++ "," ++ joinWith "," (slots.map (fun k => toString (getState o k)))
+
+def showAccts (s : SDB) : String := joinWith ";" (tracked.map (fun a => showAcctView a s))
+
+def showAux (s : SDB) : String :=
+  "R" ++ toString s.refund ++ ";L" ++
+    joinWith "," (s.logs.reverse.map (fun l => toString l.1 ++ "." ++ toString l.2.1 ++ "." ++ toString l.2.2)) ++
+    ";P" ++ joinWith "," (hkeys.map (fun h => match s.preimages h with | some p => toString p | none => "-"))
+
+def insertSorted (x : Nat) : List Nat → List Nat
+  | [] => [x]
+  | y :: ys => if x ≤ y then x :: y :: ys else y :: insertSorted x ys
+
+def showInternal (s : SDB) : String :=
+  "D" ++ joinWith "." ((s.dirty.foldl (fun acc x => insertSorted x acc) []).map toString) ++ ";F" ++
+    String.join (tracked.map (fun a =>
+      match s.objs a with
+      | none => "a-"
+      | some o => (if o.armed then "a" else "u") ++ (if o.deleted then "x" else "-"))) ++
+    ";J" ++ toString s.journal.length ++ "." ++ toString s.revs.length
+
+def showState (s : SDB) : String := showAccts s ++ ";" ++ showAux s ++ ";" ++ showInternal s
+
+/-- fingerprint of a trie content on the tracked accounts/slots (stands for `mptRoot content`). -/
+def fingerprint (t : Addr → Option Acct) : String :=
+  joinWith ";" (tracked.map (fun a =>
+    match t a with
+    | none => "-"
+    | some c => toString c.nonce ++ "," ++ toString c.balance ++ "," ++ hexOrDash c.code ++ "," ++
+        joinWith "," (slots.map (fun k => toString (c.storage k)))))
+
+structure DState where
+  cur : SDB
+  oth : Option SDB
+  committed : Array (Addr → Option Acct)
+  classes : Array String
+
+def classOf (d : DState) (fp : String) : DState × String :=
+  match d.classes.findIdx? (· == fp) with
+  | some i => (d, "r" ++ toString i)
+  | none => ({ d with classes := d.classes.push fp }, "r" ++ toString d.classes.size)
+
+def parseInt (s : String) : Option Int := s.toInt?
+def parseNat (s : String) : Option Nat := s.toNat?
+
+/-- net-effect replay: a fresh StateDB populated through the setters with the content the getters report. -/
+def netEffect (s : SDB) : SDB :=
+  let f := tracked.foldl (fun (acc : SDB) a =>
+    match look s a with
+    | none => acc
+    | some o =>
+      let acc := addBalance acc a 0
+      let acc := if o.balance ≠ 0 then setBalance acc a o.balance else acc
+      let acc := if o.nonce ≠ 0 then setNonce acc a o.nonce else acc
+      let acc := if !o.code.isEmpty then setCode acc a o.code else acc
+      slots.foldl (fun acc k => if getState o k ≠ 0 then setState acc a k (getState o k) else acc) acc) (fresh (fun _ => none))
+  finalise false f
+
+inductive Res
+  | ok (d : DState) (obs : String)
+  | panic
+
+/-- execute one action; `none` = malformed action text. -/
+def act (d : DState) (a : String) : Option Res :=
+  let f := a.splitOn ":"
+  let s := d.cur
+  let fin (s' : SDB) (ret : String) : Option Res :=
+    if s'.fault then some .panic else some (.ok { d with cur := s' } (ret ++ "/" ++ showState s'))
+  match f with
+  | ["ca", x] => do let x ← parseNat x; fin (createAccount s x) ""
+  | ["ab", x, v] => do let x ← parseNat x; let v ← parseInt v; fin (addBalance s x v) ""
+  | ["sb", x, v] => do let x ← parseNat x; let v ← parseInt v; fin (subBalance s x v) ""
+  | ["bl", x, v] => do let x ← parseNat x; let v ← parseInt v; fin (setBalance s x v) ""
+  | ["no", x, n] => do let x ← parseNat x; let n ← parseNat n; fin (setNonce s x n) ""
+  | ["co", x, c] => do let x ← parseNat x; let c ← bytesOfHex c; fin (setCode s x c) ""
+  | ["st", x, k, v] => do let x ← parseNat x; let k ← parseNat k; let v ← parseNat v; fin (setState s x k v) ""
+  | ["sd", x] => do let x ← parseNat x; fin (suicide s x) (if (look s x).isSome then "1" else "0")
+  | ["rf", g] => do let g ← parseNat g; fin (addRefund s g) ""
+  | ["lg", t] => do let t ← parseNat t; fin (addLog s t) ""
+  | ["pi", h, p] => do let h ← parseNat h; let p ← parseNat p; fin (addPreimage s h p) ""
+  | ["pp", t] => do let t ← parseNat t; fin (prepare s t) ""
+  | ["sn"] => let r := snapshot s; fin r.1 (toString r.2)
+  | ["rv", id] => do
+    let id ← parseNat id
+    match revertTo id s with
+    | none => some .panic
+    | some s' => fin s' ""
+  | ["fi", b] => fin (finalise (b == "1") s) ""
+  | ["rt", b] =>
+    let s' := finalise (b == "1") s
+    if s'.fault then some .panic else
+    let (d', c) := classOf d (fingerprint s'.trie)
+    some (.ok { d' with cur := s' } (c ++ "/" ++ showState s'))
+  | ["cm", b] =>
+    let s' := commit (b == "1") s
+    if s'.fault then some .panic else
+    let (d', c) := classOf d (fingerprint s'.trie)
+    some (.ok { d' with cur := s', committed := d'.committed.push s'.trie } (c ++ "/" ++ showState s'))
+  | ["ro", k] => do
+    let k ← parseNat k
+    match d.committed[k]? with
+    | none => some .panic
+    | some c => let s' := fresh c; some (.ok { d with cur := s' } ("ok/" ++ showState s'))
+  | ["rs", k] => do
+    let k ← parseNat k
+    match d.committed[k]? with
+    | none => some .panic
+    | some c => let s' := reset s c; if s'.fault then some .panic else some (.ok { d with cur := s' } ("ok/" ++ showState s'))
+  | ["cp"] =>
+    let c := copy s
+    if c.fault then some .panic else
+    some (.ok { d with oth := some c } ("ok/" ++ showState s ++ "/" ++ showState c))
+  | ["sw"] =>
+    match d.oth with
+    | none => some (.ok d ("ok/" ++ showState s))
+    | some o => some (.ok { d with cur := o, oth := some s } ("ok/" ++ showState o))
+  | ["ne"] =>
+    let n := netEffect s
+    if n.fault then some .panic else
+    let (d', c) := classOf d (fingerprint n.trie)
+    some (.ok d' (c ++ "/" ++ showState s))
+  | _ => none
+
+def runActs : List String → DState → List String → List String
+  | [], _, acc => acc.reverse
+  | a :: rest, d, acc =>
+    match act d a with
+    | none => ("bad-op" :: acc).reverse
+    | some .panic => ("panic" :: acc).reverse
+    | some (.ok d' o) => runActs rest d' (o :: acc)
+
+/-! ### judging the Go output on its own (only used when it differs from the model) -/
+
+/-- the getters' part of one observation (`ret/accts;R;L;P;D;F;J`): accounts, refund, logs, preimages. -/
+def viewPart (ob : String) : String :=
+  match ob.splitOn "/" with
+  | _ :: st :: _ => joinWith ";" ((st.splitOn ";").take 8)
+  | _ => ob
+
+def acctPart (ob : String) : String :=
+  match ob.splitOn "/" with
+  | _ :: st :: _ => joinWith ";" ((st.splitOn ";").take 5)
+  | _ => ob
+
+def retPart (ob : String) : String := (ob.splitOn "/").headD ""
+
+def copyPart (ob : String) : String :=
+  match ob.splitOn "/" with
+  | _ :: _ :: st :: _ => joinWith ";" ((st.splitOn ";").take 8)
+  | _ => ""
+
+structure JState where
+  curId : Nat := 0
+  othId : Option Nat := none
+  nextState : Nat := 1
+  snaps : List ((Nat × String) × String) := []      -- ((state id, snapshot id), view)
+  commits : Array String := #[]
+  roots : List (String × String) := []               -- (content, class)
+  why : Option String := none
+
+def judgeStep (j : JState) (a ob : String) : JState :=
+  if j.why.isSome then j else
+  let f := a.splitOn ":"
+  let bad (w : String) : JState := { j with why := some w }
+  let rootCheck (content cls : String) : JState :=
+    match j.roots.find? (fun r => r.1 == content), j.roots.find? (fun r => r.2 == cls) with
+    | some r, _ => if r.2 == cls then j else bad "root-depends-on-history"
+    | none, some _ => bad "distinct-contents-share-a-root"
+    | none, none => { j with roots := (content, cls) :: j.roots }
+  match f with
+  | ["sn"] => { j with snaps := ((j.curId, retPart ob), viewPart ob) :: j.snaps }
+  | ["rv", id] =>
+    match j.snaps.find? (fun s => s.1 == (j.curId, id)) with
+    | some s => if s.2 == viewPart ob then j else bad "revert-not-exact"
+    | none => j
+  | ["rt", _] => rootCheck (acctPart ob) (retPart ob)
+  | ["cm", _] => { rootCheck (acctPart ob) (retPart ob) with commits := j.commits.push (acctPart ob) }
+  | ["ro", k] | ["rs", k] =>
+    match k.toNat? with
+    | some k =>
+      let j' := if f.head! == "ro" then { j with curId := j.nextState, nextState := j.nextState + 1 } else j
+      match j.commits[k]? with
+      | some c => if c == acctPart ob then j' else bad "reopen-differs"
+      | none => j'
+    | none => j
+  | ["cp"] =>
+    let j' := { j with othId := some j.nextState, nextState := j.nextState + 1 }
+    if copyPart ob == viewPart ob then j' else bad "copy-differs"
+  | ["sw"] =>
+    match j.othId with
+    | some o => { j with curId := o, othId := some j.curId }
+    | none => j
+  | _ => j
+
+def judge (acts obs : List String) : Option String :=
+  let rec go (j : JState) : List String → List String → JState
+    | a :: as, o :: os => go (judgeStep j a o) as os
+    | _, _ => j
+  (go {} acts obs).why
+
+def handle (l : String) : String :=
+  let (inp, go) := splitCase l
+  match fields inp with
+  | "h" :: acts =>
+    let d0 : DState := { cur := fresh (fun _ => none), oth := none, committed := #[], classes := #[] }
+    let m := joinWith " " (runActs acts d0 [])
+    if m == go then m ++ "\tagree"
+    else
+      match judge acts (fields go) with
+      | none => m ++ "\tspec-ok"
+      | some w => m ++ "\tspec-reject:" ++ w
+  | _ => "bad-op\tagree"
 
 def main : IO Unit := runLines handle
